@@ -156,6 +156,19 @@ def check(fx, rep, tier):
         others_union = any(c["method"] == "union" for a in m["arms"] if (F.pat_variants(a["pat"]) or set()) and (TE, "Equal") not in F.pat_variants(a["pat"]) for c, _ in forest_calls(a["body"]))
         if union_unconditional and "add_data" not in eq_names and "add_data" in all_names and not others_union:
             setup_ok = True
+    if not setup_ok:
+        # `if let TE::Equal { id } = expr { forest.union(..) } else { forest.add_data(..) }`
+        for n, ps in F.exprs(root, "If"):
+            if any(a is rl for a, _ in ps) or "else" not in n:
+                continue
+            c = F.strip(n["cond"])
+            if c.get("k") != "Let" or F.pat_variants(c["pat"]) != {(TE, "Equal")}:
+                continue
+            then_names = [x["method"] for x, _ in forest_calls(n["then"])]
+            else_names = [x["method"] for x, _ in forest_calls(n["else"])]
+            then_plain = not any(x.get("k") in ("If", "Match") and not x.get("exp") for x, _ in F.walk(n["then"]))
+            if then_names == ["union"] and then_plain and "add_data" in else_names and "union" not in else_names:
+                setup_ok = True
     rep.oblige(setup_ok, "R14.2", "equal-becomes-union", F.loc(uni["span"]), "equality judgements are not turned into unions (and only unions) before the rounds start: an Equal expression can reach merge, which panics on it", sample={"rule": "R14.2", "setup": "Equal => union, _ => add_data"})
     # nothing in merge / unifier constructs TE::Equal
     for b in (mm.fn, uni):
